@@ -128,6 +128,15 @@ def scenarios(rng: random.Random, tier: str):
     out.append(nodegen.CONFIGS["basic"] + " | start | " + " | ".join(
         f"acc | rx {i} " + nodegen.cer("stranger.x", "4", n(), n()) for i in range(4)) + " | tick")
     out.append(nodegen.CONFIGS["out"] + " | start fail,fail | adv 6 | dial fail,ok | adv 6")
+    # two connections fail on a write in the same pass of the I/O loop (both close themselves and signal the node)
+    out.append(two + " | start | acc | rx 0 " + nodegen.cer("peer1.x", "4+3", n(), n(), extra=",acct=3") + " | acc | rx 1 " +
+               nodegen.cer("peer2.x", "4+3", n(), n(), extra=",acct=3") + " | wr 0 hard | wr 1 hard | rxm 0:" +
+               nodegen.dwr(n(), n()) + " 1:" + nodegen.dwr(n(), n(), "peer2.x") + " | tick | tick")
+    # the CER arrives in the very pass in which the CER timeout expires (the bytes are handed to the reader, then the timer
+    # closes the connection): whatever the reader still does with them, no table entry and no readiness comes back
+    for cfgn in ("two", "basic"):
+        late = nodegen.CONFIGS[cfgn] + " | start | acc | advrx 5 0 " + nodegen.cer("peer1.x", "4", n(), n()) + " | tick | adv 1 | tick"
+        out += [late, nodecheck.eager(late)]       # (the eager schedule lets the reader handle what it was handed before the close)
     # one application whose peers sit in different realms: it stays ready while any of them has a ready connection
     xr = ("NODE host=node.local;realm=realm.local;peer:peer1.x,realm.local,0,0,30,1,0,-,-,-,-;"
           "peer:peer2.x,realm.b,0,0,30,1,0,-,-,-,-;peer:peer3.x,realm.c,0,0,30,1,0,-,-,-,-;"
